@@ -18,8 +18,12 @@ TRUSTED = ["Coq 8.16.1 kernel, vm_compute for the correspondence evaluation",
            "coq/Agree.v agreement relation (relative tolerance 1e-9; signs compared only when |sd|>1e-8 unless arithmetic is exact)",
            "NumPy, vg"]
 CASE_IMPORTS = [("PW.model", "M_plane")]
-DEFINITIONAL = ["C05_stacked_is_map_single", "C05_pairs_is_map_single", "C05_distance_is_abs"]
-ASSUMPTIONS = ["theorems are about exact real arithmetic; binary64 rounding is covered only by the tolerance of the "
+DEFINITIONAL = ["C05_stacked_is_map_single", "C05_pairs_is_map_single", "C05_distance_is_abs", "C05_pairs_length"]
+ASSUMPTIONS = ["planes are built with Plane(ref, normal[, direction_decimals]) directly; the other constructors are C13's; "
+               "normals unit only to 10^-d (d = 2..5) are generated and every law that needs |n| = 1 is judged up to its proved defect term",
+               "value comparisons are relative to the largest input coordinate with a floor of 1 (Agree.close_mag): below "
+               "coordinate scale ~2^-20 they are effectively absolute 1e-9, decisions (signs, selections) are exact there",
+               "theorems are about exact real arithmetic; binary64 rounding is covered only by the tolerance of the "
                "correspondence check on sampled inputs"]
 
 
@@ -129,6 +133,16 @@ def gen_cases(rng, n, tier):
             scale = 2.0 ** rng.randint(-30, 30)
         else:
             scale = 2.0 ** rng.randint(-10, 10)
+        if u < 0.06:
+            # planes obtainable from the constructors with a looser direction_decimals: the normal is unit only to 10^-d
+            d = rng.choice([2, 3, 4, 5])
+            nn = np.array([float(x) for x in rational_unit_normal(rng)])
+            nn = nn / np.linalg.norm(nn) * (1.0 + rng.uniform(-0.8, 0.8) * 10.0 ** (-d))
+            ref = [x * scale for x in grid_vec(rng)]
+            pts = [[x * scale for x in grid_vec(rng)] for _ in range(rng.randint(1, 6))]
+            cases.append({"kind": "plane_loose_normal", "exact": False, "ref": ref, "normal": list(nn), "points": pts,
+                          "direction_decimals": d})
+            continue
         if u < 0.45:
             nrm = [float(x) for x in rational_unit_normal(rng)]
             nn = np.array(nrm)
@@ -196,7 +210,7 @@ def run_impl(c):
 
     def go():
         if c["kind"].startswith("plane"):
-            pl = Plane(np.array(c["ref"]), np.array(c["normal"]))
+            pl = Plane(np.array(c["ref"]), np.array(c["normal"]), direction_decimals=c.get("direction_decimals"))
             pts = _arr(c["points"])
             if c.get("int"):
                 pts = pts.astype(np.int64)
@@ -315,7 +329,7 @@ def oracle(c, o):
             pr, mi = _F(o["proj"][i]), _F(o["mirror"][i])
             n2 = _dot(nrm, nrm)
             # the constructor accepts normals that are unit only to 1e-6: the laws that need |n|=1 hold up to that defect
-            slack = 4 * abs(sd) * abs(n2 - 1)
+            slack = Fr(9, 2) * abs(sd) * abs(n2 - 1)  # exact defects: C05_project_twice_defect, C05_mirror_twice_defect (factor 4|n_j|)
             for j in range(3):
                 if not _close(o["proj"][i][j], p[j] - sd * nrm[j], mag):
                     return "project_point[%d] is not p - sd*n" % i
@@ -365,7 +379,9 @@ def oracle(c, o):
         if e[:3] != nrm or not _close(o["eq"][3], -_dot(ref, nrm), mag):
             return "equation is not [n, -ref.n]"
         cp = _F(o["canon"])
-        if abs(_dot(cp, nrm) + e[3]) > Fr(1, 10 ** 6) * mag:
+        # sd(canonical point) = (ref.n)(|n|^2 - 1) exactly (theorem C05_canonical_sd_defect): zero only for an exactly unit normal
+        n2 = _dot(nrm, nrm)
+        if abs(_dot(cp, nrm) + e[3]) > Fr(1, 10 ** 6) * mag + 2 * abs(_dot(ref, nrm)) * abs(n2 - 1):
             return "canonical_point is not on the plane described by equation"
         fe = _F(o["flip_eq"])
         if fe[:3] != [-x for x in nrm] or not _close(o["flip_eq"][3], _dot(ref, nrm), mag):
